@@ -6,7 +6,7 @@
    output: serialised result (same format as tools/props/C08.py: ser) or EXN:<class>. *)
 From Coq Require Import String.
 Require Import OV.Base.Bytes OV.Base.Py OV.Base.PyInt OV.Base.Str OV.Base.IO.
-Require Import OV.Model.C08_Syntax OV.Gen.C08_Keys OV.Gen.C08_Shape OV.Model.C08.
+Require Import OV.Model.C08_Syntax OV.Gen.C08_Keys OV.Gen.C08_Shape OV.Gen.C08_Frame OV.Model.C08 OV.Model.C08_Heap.
 From Coq Require Extraction ExtrOcamlBasic.
 
 Definition parse_key (ts : list bytes) : option (key * list bytes) :=
@@ -81,6 +81,92 @@ Fixpoint table_mp (tbl : list (str * str * str)) (m s : str) : str :=
   | (m', s', r) :: t => if beq m m' && beq s s' then r else table_mp t m s
   end.
 
+(* ---------- heap model (object identity) ----------
+   args: "mdph" fuel secret_loc report(0|1) root_loc ntable (message secret result){ntable} nobj <objects>
+   object tokens:  S str | O tag | D kind n (key-tokens loc){n}
+   output: the result read back from the final heap, every slot annotated with its identity:
+     dict / other:  @<loc> = the argument object at that location, # = allocated by the call
+     str:           @s = the secret object (only when report = 1: the secret object is not also an object
+                    of the argument), ~ = not compared (mask_password's result) *)
+Fixpoint parse_items_l (n : nat) (ts : list bytes) : option (list (key * loc) * list bytes) :=
+  match n with
+  | O => Some ([], ts)
+  | S n' =>
+      match parse_key ts with
+      | Some (k, l :: r) =>
+          match parse_items_l n' r with
+          | Some (its, r') => Some ((k, arg_nat l) :: its, r')
+          | None => None
+          end
+      | _ => None
+      end
+  end.
+Fixpoint parse_heap (n : nat) (ts : list bytes) : option (heap * list bytes) :=
+  match n with
+  | O => Some ([], ts)
+  | S n' =>
+      match ts with
+      | t :: rest =>
+          match
+            (if is_op "S" t then match rest with x :: r => Some (PStr x, r) | [] => None end
+             else if is_op "O" t then match rest with x :: r => Some (POther x, r) | [] => None end
+             else if is_op "D" t then
+               match rest with
+               | kd :: cnt :: r => match parse_items_l (arg_nat cnt) r with
+                                   | Some (its, r') => Some (PDict (arg_N kd) its, r')
+                                   | None => None
+                                   end
+               | _ => None
+               end
+             else None)
+          with
+          | Some (o, r) => match parse_heap n' r with Some (h, r') => Some (o :: h, r') | None => None end
+          | None => None
+          end
+      | [] => None
+      end
+  end.
+
+Definition mp_h_tbl (tbl : list (str * str * str)) (h : heap) (m s : loc) : heap * loc :=
+  match hget h m, hget h s with
+  | Some (PStr ms), Some (PStr ss) => halloc h (PStr (table_mp tbl ms ss))
+  | _, _ => halloc h (PStr (lit "<mask_password: not called on strings>"))
+  end.
+
+Fixpoint ser_h (fuel : nat) (narg : nat) (secret : loc) (h : heap) (l : loc) : bytes :=
+  match fuel with
+  | O => lit "!"
+  | S f =>
+      let ident := if Nat.ltb l narg then lit "@" ++ dec_of_N (N.of_nat l) else lit "#" in
+      match hget h l with
+      | None => lit "?"
+      | Some (PStr x) => ser_str "S" x ++ (if Nat.eqb l secret then lit "@s" else lit "~")
+      | Some (POther t) => ser_str "O" t ++ ident
+      | Some (PDict kd items) =>
+          lit "M" ++ dec_of_N kd ++ [44%N] ++ dec_of_N (N.of_nat (length items)) ++ ident ++ [58%N]
+          ++ flat_map (fun kl => ser_key (fst kl) ++ ser_h f narg secret h (snd kl)) items
+      end
+  end.
+
+Definition run_h (args : list bytes) : bytes :=
+  let fuel := arg_nat (nth_arg args 1) in
+  let secret := arg_nat (nth_arg args 2) in
+  let report := arg_bool (nth_arg args 3) in
+  let root := arg_nat (nth_arg args 4) in
+  let (tbl, rest) := parse_table (arg_nat (nth_arg args 5)) (skipn 6 args) in
+  match rest with
+  | nobj :: rest' =>
+      match parse_heap (arg_nat nobj) rest' with
+      | Some (h, []) =>
+          match mdp_h (mp_h_tbl tbl) fuel h secret root with
+          | Ok (h', r) => ser_h (S (length h')) (length h) (if report then secret else length h') h' r
+          | Exn e => out_exn e
+          end
+      | _ => lit "BADHEAP"
+      end
+  | [] => lit "BADARGS"
+  end.
+
 Definition run (args : list bytes) : bytes :=
   let op := nth_arg args 0 in
   if is_op "mdp" op then
@@ -90,6 +176,7 @@ Definition run (args : list bytes) : bytes :=
     | Some (d, []) => out_res ser (mdp (table_mp tbl) secret d)
     | _ => lit "BADARGS"
     end
+  else if is_op "mdph" op then run_h args
   else if is_op "key" op then
     (* the key test observed the way the harness observes it: mask_dict_password({k: 0}, 'M') *)
     match mdp (table_mp []) (lit "M") (VMap 0 [(KStr (nth_arg args 1), VOther (lit "i0"))]) with
